@@ -121,8 +121,8 @@ def step (st : St) (ws : List String) : St × String × String × String :=
         | .ok (g', _, c) => ("ok " ++ toString c.total, g')
         | .error e => (errLine e, st.g)
       match Update.step small params st.g st.next st.names stmt with
-      | .ok (g', next', count) =>
-        ({ st with g := g', next := next', names := (st.names ++ namesOfStmt stmt).eraseDups, specG, trig },
+      | .ok (g', next', count, names') =>
+        ({ st with g := g', next := next', names := names', specG, trig },
           "ok " ++ toString count, specOut, " ".intercalate trig)
       | .error e => ({ st with specG, trig }, errLine e, specOut, " ".intercalate trig)
     | _, _ => (st, "bad-op", "-", "")
